@@ -26,10 +26,10 @@ Definition bf_post (o : outcome (A := A)) (tr : trace) : Prop :=
 
 (* the embedded line search (no hook, no constraints) keeps the log good *)
 Lemma bf_ls_good fuel x1 p1 tr : good tr ->
-  good (snd (line_search NM K F HK CS (bf_dir_query NM x1 p1) false false fuel (one NM) 100 tr)).
+  good (snd (line_search NM K F HK CS (bf_dir_query NM x1 p1) (bf_cons_point NM x1 p1) false (bf_cons P) fuel (one NM) 100 tr)).
 Proof.
   intros G.
-  pose proof (line_search_ok NM K F HK CS (bf_dir_query NM x1 p1) false false (hook_matched (A := A))
+  pose proof (line_search_ok NM K F HK CS (bf_dir_query NM x1 p1) (bf_cons_point NM x1 p1) false (bf_cons P) (hook_matched (A := A))
                 (hm_ext) (fun (X : false = true) => False_rect _ (Bool.diff_false_true X))
                 fuel (one NM) 100 tr G) as L.
   apply L.
@@ -46,7 +46,7 @@ Proof.
   2:{ ssplit; [exact G | nonconv]. }
   remember (map (neg NM) (mdotv NM H1 g1)) as p1 eqn:Hp1.
   pose proof (bf_ls_good f x1 p1 tr G) as G1.
-  remember (line_search NM K F HK CS (bf_dir_query NM x1 p1) false false f (one NM) 100 tr) as r eqn:Hr.
+  remember (line_search NM K F HK CS (bf_dir_query NM x1 p1) (bf_cons_point NM x1 p1) false (bf_cons P) f (one NM) 100 tr) as r eqn:Hr.
   clear Hr.
   destruct (ls_is_fuel (fst r)); simpl.
   { ssplit; [exact G1 | nonconv]. }
@@ -117,8 +117,8 @@ Proof.
   apply Z.ltb_lt in Hi.
   assert (Hz : Z.to_nat (bf_maxit P - i) = S (Z.to_nat (bf_maxit P - (i + 1)))) by lia.
   remember (map (neg NM) (mdotv NM H1 g1)) as p1 eqn:Hp1.
-  pose proof (line_search_evals NM K F HK CS (bf_dir_query NM x1 p1) false false f (one NM) 100 tr) as L.
-  remember (line_search NM K F HK CS (bf_dir_query NM x1 p1) false false f (one NM) 100 tr) as r eqn:Hr.
+  pose proof (line_search_evals NM K F HK CS (bf_dir_query NM x1 p1) (bf_cons_point NM x1 p1) false (bf_cons P) f (one NM) 100 tr) as L.
+  remember (line_search NM K F HK CS (bf_dir_query NM x1 p1) (bf_cons_point NM x1 p1) false (bf_cons P) f (one NM) 100 tr) as r eqn:Hr.
   clear Hr. change (Z.to_nat 100) with 100%nat in L.
   destruct (ls_is_fuel (fst r)); simpl; [lia|].
   remember (vadd NM x1 (vmuls NM p1 (ls_alpha NM (fst r)))) as x2' eqn:Hx2.
@@ -140,6 +140,12 @@ Proof.
   - specialize (IH (i + 1) x2' x2' (a_y a) (a_y a) (a_g a) (a_g a) m false tr3). lia.
   - specialize (IH (i + 1) x2' x2' (a_y a) (a_y a) (a_g a) (a_g a) (bf_H0 P) true tr3). lia.
 Qed.
+
+(* constraints: the start point is submitted and a rejected one is an error return *)
+Lemma bfgs_start_rejected_l fuel x0 :
+  bf_cons P = true -> CS 0 x0 = false ->
+  bfgs NM K F HK CS P fuel x0 = (Err x0, [EvCons x0 false]).
+Proof. intros Hc Hr. unfold bfgs. rewrite Hc, Hr. reflexivity. Qed.
 
 Theorem bfgs_eval_cap fuel x0 :
   (n_evals (snd (bfgs NM K F HK CS P fuel x0)) <= 1 + 103 * Z.to_nat (bf_maxit P))%nat.
